@@ -156,6 +156,15 @@ def gen():
     wb = F.fn_body(t, "write_elem", rel)
     out.append(G.coq_list("write_elem_left_guards", G.guards_of(wb, {"left": "none"}, rel + ":write_elem")))
     out.append(G.coq_list("write_elem_right_guards", G.guards_of(wb, {"right": "none"}, rel + ":write_elem")))
+    # ---- index.rs: a lexicon without indexed entries
+    rel = BUILD + "index.rs"
+    t = no_tests(F.strip_comments(F.src(rel)))
+    tb = F.fn_body(t, "build_trie", rel)
+    if "DoubleArrayBuilder::build(&trie_entries)" not in tb:
+        raise F.FactError("build_trie no longer calls DoubleArrayBuilder::build(&trie_entries)")
+    m = re.search(r"if\s+trie_entries\.is_empty\(\)\s*\{\s*return\s+Err", tb)
+    guarded = bool(m) and tb.index("trie_entries.is_empty()") < tb.index("DoubleArrayBuilder::build")
+    out.append("(* yada's builder asserts on an empty key set *)\nDefinition empty_trie_is_error : bool := %s.\n" % ("true" if guarded else "false"))
     # ---- panic-site inventory of the anchored builder files
     rows = []
     for f in ("mod.rs", "lexicon.rs", "conn.rs", "parse.rs", "primitives.rs", "index.rs", "error.rs"):
